@@ -59,7 +59,7 @@ def main() -> int:
     rf = SEEDED / "results.json"
     if rf.exists():
         results = json.loads(rf.read_text())
-    for d in sorted(p for p in SEEDED.iterdir() if p.is_dir()):
+    for d in sorted(p for p in SEEDED.iterdir() if p.is_dir() and not p.name.startswith("_") and p.name != "prompts"):
         if args.only and d.name not in args.only:
             continue
         meta = json.loads((d / "meta.json").read_text())
